@@ -495,6 +495,15 @@ func ReadStream(r io.Reader, s *Scope, one ...bool) (Code, int) {
 	return cr.code, pos
 }
 
+func pushToChannel(s *Scope, channel chan Object, obj Object) {
+	defer func() {
+		if rec := recover(); rec != nil {
+			panic(ErrorNew(s, 0, "can not push to a closed channel"))
+		}
+	}()
+	channel <- obj
+}
+
 // ReadStreamPush reads LISP source code from a stream and pushes
 // s-expressions read onto a channel.
 func ReadStreamPush(r io.Reader, s *Scope, channel chan Object) {
@@ -519,7 +528,7 @@ func ReadStreamPush(r io.Reader, s *Scope, channel chan Object) {
 		cr.read(src)
 		if 0 < len(cr.code) {
 			for _, obj := range cr.code {
-				channel <- obj
+				pushToChannel(s, channel, obj)
 			}
 			cr.code = cr.code[:0]
 		}
